@@ -23,6 +23,7 @@ RULE = (
     "extra linear constraints) or on textbook; n in {1,7,50}, thinning in {1,10,100}, small nproj "
     "(so that re-projection happens), several seeds, processes in {1,2,4}.  Non-trivial when >= 2 "
     "rows differ; distinct by (model hash, method, n, thinning, seed, processes, space)."
+    " A later-built single-process sampler of another model stays alive next to OptGP draws; the re-projection step is driven directly with points pushed off the equalities (wide reversible models with a non-zero equality); long chains of 70 000 steps at tolerance 1e-9."  # third-session additions
 )
 ASSUMPTIONS = [
     "tolerance = sampler.feasibility_tol = bounds_tol = model.tolerance; a violation is reported above 2x tolerance (absolute, as the sampler documents), validate() must say 'v' below 0.5x and must not above 2x",
